@@ -7,6 +7,12 @@ LngDef == LangByName(EnvOr("VERIF_LANG", "LTiny"))
 NamePoolDef == {"n1", "n1:1", NONE}
 IdPoolDef == {NoId, 0, -1, 2}
 IdPoolSmall == {NoId, 0}
+IdPoolNone == {NoId}
+DefValsGraph == {0, 5, 10}
+MaxAssetsDef == atoi(EnvOr("VERIF_MAXASSETS", "3"))
+MaxAssocsDef == atoi(EnvOr("VERIF_MAXASSOCS", "3"))
+MaxMembersDef == atoi(EnvOr("VERIF_MAXMEMBERS", "2"))
+DefValsWide == {-1, 0, 5, 10, 15}
 FreshPoolDef == {1, 3}
 AutoNamesDef == {"auto1", "auto2"}
 DefValsDef == {-1, 5, 15}
